@@ -31,7 +31,7 @@ def hx(b):
 
 def val_sx(v):
     t = v[0]
-    if t in ('nil', 'strpanic', 'strnilptr', 'strselfpanic', 'nilmap'):
+    if t in ('nil', 'strpanic', 'strnilptr', 'strselfpanic', 'strpanicinvop', 'strpanicinvopw', 'nilmap'):
         return t
     if t == 'b':
         return '(b %d)' % (1 if v[1] else 0)
@@ -39,7 +39,7 @@ def val_sx(v):
         return '(%s %d)' % (t, v[1])
     if t == 'f':
         return '(f %d)' % fbits(v[1])
-    if t in ('s', 'str', 'strptr', 'jnum', 'strslice', 'strreent', 'strver', 'strverptr'):
+    if t in ('s', 'str', 'strptr', 'jnum', 'strslice', 'strreent', 'strsame', 'strver', 'strverptr'):
         return '(%s %s)' % (t, hx(v[1]))
     if t == 'o':
         return '(o %d)' % v[1]
